@@ -277,25 +277,112 @@ func instrDominates(a, b ssa.Instruction) bool {
 // reachableFrom computes the set of blocks reachable from the successors of `from`
 // (or from `from` itself when inclusive) without entering blocks in `avoid`.
 func reachableBlocks(starts []*ssa.BasicBlock, avoid map[*ssa.BasicBlock]bool) map[*ssa.BasicBlock]bool {
+	// Edge-sensitive (DESIGN §2.1 A-cfg): a block that branches on a phi of its own whose edge from the
+	// predecessor we arrive through is a boolean constant takes only the corresponding successor. This is what
+	// `found = true; break ... if found` and an inlined `return false` (normal forms) compile to.
+	type node struct{ b, from *ssa.BasicBlock }
+	seenN := map[node]bool{}
 	seen := map[*ssa.BasicBlock]bool{}
-	var stack []*ssa.BasicBlock
+	var stack []node
 	for _, s := range starts {
-		if !avoid[s] && !seen[s] {
-			seen[s] = true
-			stack = append(stack, s)
+		if !avoid[s] {
+			stack = append(stack, node{s, nil})
 		}
 	}
 	for len(stack) > 0 {
-		b := stack[len(stack)-1]
+		n := stack[len(stack)-1]
 		stack = stack[:len(stack)-1]
-		for _, s := range b.Succs {
-			if !avoid[s] && !seen[s] {
-				seen[s] = true
-				stack = append(stack, s)
+		if seenN[n] {
+			continue
+		}
+		seenN[n] = true
+		seen[n.b] = true
+		for _, s := range threadedSuccs(n.b, n.from) {
+			if !avoid[s] {
+				stack = append(stack, node{s, n.b})
 			}
 		}
 	}
 	return seen
+}
+
+// reachableAfter: the blocks control can reach after leaving b (b itself only through a cycle).
+func reachableAfter(b *ssa.BasicBlock, avoid map[*ssa.BasicBlock]bool) map[*ssa.BasicBlock]bool {
+	type node struct{ b, from *ssa.BasicBlock }
+	seenN := map[node]bool{}
+	seen := map[*ssa.BasicBlock]bool{}
+	var stack []node
+	for _, s := range b.Succs {
+		if !avoid[s] {
+			stack = append(stack, node{s, b})
+		}
+	}
+	for len(stack) > 0 {
+		n := stack[len(stack)-1]
+		stack = stack[:len(stack)-1]
+		if seenN[n] {
+			continue
+		}
+		seenN[n] = true
+		seen[n.b] = true
+		for _, s := range threadedSuccs(n.b, n.from) {
+			if !avoid[s] {
+				stack = append(stack, node{s, n.b})
+			}
+		}
+	}
+	return seen
+}
+
+// threadedSuccs: the successors of b that control can take when b was entered from `from` (nil: unknown).
+func threadedSuccs(b, from *ssa.BasicBlock) []*ssa.BasicBlock {
+	if from == nil || len(b.Instrs) == 0 {
+		return b.Succs
+	}
+	iff, ok := b.Instrs[len(b.Instrs)-1].(*ssa.If)
+	if !ok {
+		return b.Succs
+	}
+	cond := iff.Cond
+	neg := false
+	for {
+		u, ok := cond.(*ssa.UnOp)
+		if !ok || u.Op != token.NOT {
+			break
+		}
+		cond, neg = u.X, !neg
+	}
+	phi, ok := cond.(*ssa.Phi)
+	if !ok || phi.Block() != b {
+		return b.Succs
+	}
+	var out []*ssa.BasicBlock
+	add := func(s *ssa.BasicBlock) {
+		for _, o := range out {
+			if o == s {
+				return
+			}
+		}
+		out = append(out, s)
+	}
+	for k, p := range b.Preds {
+		if p != from || k >= len(phi.Edges) {
+			continue
+		}
+		if v, ok := constBool(phi.Edges[k]); ok {
+			if v != neg {
+				add(b.Succs[0])
+			} else {
+				add(b.Succs[1])
+			}
+		} else {
+			return b.Succs
+		}
+	}
+	if len(out) == 0 {
+		return b.Succs
+	}
+	return out
 }
 
 // canReachInstr reports whether instruction b can execute after instruction a
@@ -304,7 +391,7 @@ func canReach(a, b ssa.Instruction) bool {
 	if a.Block() == b.Block() && indexInBlock(a) < indexInBlock(b) {
 		return true
 	}
-	r := reachableBlocks(a.Block().Succs, nil)
+	r := reachableAfter(a.Block(), nil)
 	return r[b.Block()]
 }
 
@@ -410,6 +497,7 @@ func factsAt1(fn *ssa.Function) map[*ssa.BasicBlock]map[condFact]bool {
 						}
 					}
 				}
+				phiImplied(out, in)
 				if first {
 					acc = out
 					first = false
@@ -435,6 +523,80 @@ func factsAt1(fn *ssa.Function) map[*ssa.BasicBlock]map[condFact]bool {
 		deriveFacts(m)
 	}
 	return in
+}
+
+// phiImplied: a boolean phi known to be true (false) came through an edge whose value is not the opposite constant.
+// What holds on every such edge - the facts at the end of the predecessor, the condition of the edge, and the
+// edge's own value - holds here too (facts speak about SSA values, which never change). This is what
+// `ok := false; if a { if b { ok = true } }; if ok {` and an inlined `return "", false` compile to.
+func phiImplied(out map[condFact]bool, in map[*ssa.BasicBlock]map[condFact]bool) {
+	var phis []condFact
+	for f := range out {
+		if _, ok := f.Cond.(*ssa.Phi); ok {
+			phis = append(phis, f)
+		}
+	}
+	for n := 0; n < 4 && len(phis) > 0; n++ {
+		var next []condFact
+		for _, f := range phis {
+			phi := f.Cond.(*ssa.Phi)
+			if b, ok := phi.Type().Underlying().(*types.Basic); !ok || b.Kind() != types.Bool {
+				continue
+			}
+			pb := phi.Block()
+			var common map[condFact]bool
+			known := true
+			for k, e := range phi.Edges {
+				if v, isC := constBool(e); isC && v != f.Pol {
+					continue // this edge cannot have been taken
+				}
+				if k >= len(pb.Preds) {
+					known = false
+					break
+				}
+				q := pb.Preds[k]
+				qin, ok := in[q]
+				if !ok {
+					continue // TOP: not yet computed, identity of the intersection
+				}
+				s := map[condFact]bool{}
+				for g := range qin {
+					s[g] = true
+				}
+				if iff, ok := q.Instrs[len(q.Instrs)-1].(*ssa.If); ok && q.Succs[0] != q.Succs[1] {
+					if q.Succs[0] == pb {
+						addCondFacts(s, iff.Cond, true)
+					} else if q.Succs[1] == pb {
+						addCondFacts(s, iff.Cond, false)
+					}
+				}
+				if _, isC := constBool(e); !isC {
+					addCondFacts(s, e, f.Pol)
+				}
+				if common == nil {
+					common = s
+				} else {
+					for g := range common {
+						if !s[g] {
+							delete(common, g)
+						}
+					}
+				}
+			}
+			if !known {
+				continue
+			}
+			for g := range common {
+				if !out[g] {
+					out[g] = true
+					if _, ok := g.Cond.(*ssa.Phi); ok {
+						next = append(next, g)
+					}
+				}
+			}
+		}
+		phis = next
+	}
 }
 
 // ---------------------------------------------------------------------------
@@ -512,7 +674,7 @@ func positiveFactsOfHelper(call *ssa.Call) []condFact {
 		return nil
 	}
 	for _, b := range cal.Blocks {
-		if reachableBlocks(b.Succs, nil)[b] {
+		if reachableAfter(b, nil)[b] {
 			return nil // loops are summarised elsewhere
 		}
 	}
@@ -760,6 +922,68 @@ func phiBoolConsts(v ssa.Value) (*ssa.Phi, []bool, bool) {
 		vals[i] = b
 	}
 	return phi, vals, true
+}
+
+// ---------------------------------------------------------------------------
+// virtual returns: `return x, ok` where x and ok are phis of the returning block is, per incoming edge, a return of
+// that edge's values under that edge's facts (this is what several `return a, b` statements become after a helper
+// was inlined into its caller, or after results were collected in variables).
+
+type vReturn struct {
+	Ret     *ssa.Return
+	Results []ssa.Value
+	Facts   map[condFact]bool
+	Block   *ssa.BasicBlock // the block the values come from
+}
+
+func virtualReturns(fn *ssa.Function) []vReturn {
+	facts := factsAt(fn)
+	var out []vReturn
+	var expand func(vr vReturn, depth int)
+	expand = func(vr vReturn, depth int) {
+		split := false
+		if depth < 4 && len(out) < 256 {
+			for _, r := range vr.Results {
+				if ph, ok := r.(*ssa.Phi); ok && ph.Block() == vr.Block {
+					split = true
+				}
+			}
+		}
+		if !split {
+			out = append(out, vr)
+			return
+		}
+		for k, pr := range vr.Block.Preds {
+			res := make([]ssa.Value, len(vr.Results))
+			for i, r := range vr.Results {
+				res[i] = r
+				if ph, ok := r.(*ssa.Phi); ok && ph.Block() == vr.Block && k < len(ph.Edges) {
+					res[i] = ph.Edges[k]
+				}
+			}
+			f := map[condFact]bool{}
+			for g := range facts[pr] {
+				f[g] = true
+			}
+			if iff, ok := pr.Instrs[len(pr.Instrs)-1].(*ssa.If); ok && pr.Succs[0] != pr.Succs[1] {
+				if pr.Succs[0] == vr.Block {
+					addCondFacts(f, iff.Cond, true)
+				} else if pr.Succs[1] == vr.Block {
+					addCondFacts(f, iff.Cond, false)
+				}
+			}
+			deriveFacts(f)
+			expand(vReturn{vr.Ret, res, f, pr}, depth+1)
+		}
+	}
+	for _, r := range returnsOf(fn) {
+		f := map[condFact]bool{}
+		for g := range facts[r.Block()] {
+			f[g] = true
+		}
+		expand(vReturn{r, append([]ssa.Value{}, r.Results...), f, r.Block()}, 0)
+	}
+	return out
 }
 
 // ---------------------------------------------------------------------------
